@@ -1,6 +1,20 @@
 """C19 programs from MC_OptRes descriptors: option:: / result:: macros in closure and function-path form (with the
 std method as sanity guard), try_!/try_opt!, try_rebind!/rebind_if_ok! patterns, min!/max! families."""
 
+def _mm_types():
+    out = []
+    for bits, u, i in ((8, "u8", "i8"), (16, "u16", "i16"), (32, "u32", "i32"), (64, "u64", "i64"), (128, "u128", "i128")):
+        out.append((u, ["0%s" % u, "1%s" % u, "(1%s << %d)" % (u, bits - 1), "%s::MAX" % u]))
+        out.append((i, ["%s::MIN" % i, "-1%s" % i, "0%s" % i, "%s::MAX" % i]))
+    out.append(("usize", ["0usize", "1usize", "(1usize << (usize::BITS - 1))", "usize::MAX"]))
+    out.append(("isize", ["isize::MIN", "-1isize", "0isize", "isize::MAX"]))
+    out.append(("char", ["'\\0'", "'a'", "'\\u{D7FF}'", "char::MAX"]))
+    out.append(("bool", ["false", "true"]))
+    return out
+
+
+MM_TYPES = _mm_types()
+
 PRELUDE = (
     "use std::cell::Cell; thread_local! { static CALLS: Cell<u32> = Cell::new(0); } "
     "fn hit() { CALLS.with(|c| c.set(c.get() + 1)); } fn calls() -> u32 { CALLS.with(|c| c.get()) } fn reset() { CALLS.with(|c| c.set(0)); } "
@@ -147,6 +161,18 @@ def cases(r):
                         "format!(\"{:?}\", (%s, %s, sm, sx))" % (l, rr, l, rr, cmin, cmax))
                 e = "('%s', '%s', '%s', '%s')" % (emin, emax, emin, emax)
             yield body, e, dict(r, mac=name)
+        # the plain macros on every primitive type, the keys mapped to four order-preserving anchor values
+        for ty, anchors in MM_TYPES:
+            if lk >= len(anchors) or rk >= len(anchors):
+                continue
+            a, b = anchors[lk], anchors[rk]
+            body = ("let (a, b): (%s, %s) = (%s, %s); format!(\"{:?}\", (konst::min!(a, b) == std::cmp::min(a, b), konst::max!(a, b) == std::cmp::max(a, b), "
+                    "konst::min!(a, b) == %s, konst::max!(a, b) == %s, "
+                    "konst::min_by_key!((a, 'L'), (b, 'R'), |x| x.0).1, konst::max_by_key!((a, 'L'), (b, 'R'), |x| x.0).1, "
+                    "konst::min_by!((a, 'L'), (b, 'R'), |x, y| konst::const_cmp!(x.0, y.0)).1, konst::max_by!((a, 'L'), (b, 'R'), |x, y| konst::const_cmp!(x.0, y.0)).1))"
+                    % (ty, ty, a, b, anchors[min(lk, rk)], anchors[max(lk, rk)]))
+            e = "(true, true, true, true, '%s', '%s', '%s', '%s')" % (emin, emax, emin, emax)
+            yield body, e, dict(r, mac="min!/max!/%s" % ty)
 
 
 def try_cases():
